@@ -229,6 +229,34 @@ let handle (line : string) : string =
         | L (A "obj" :: ms) -> M.JObj (List.map (function L [k; v] -> (str_of_sx k, jv v) | _ -> failwith "member") ms)
         | _ -> failwith "json value" in
       let b = Buffer.create 256 in dump_node b (M.json_spec_tree (List.map jv vals)); Buffer.contents b
+  | L [A "xml"; L toks; A final] ->
+      let attr = function L [a; b; v] -> (qname_of a b, str_of_sx v) | _ -> failwith "xml attr" in
+      let tok = function
+        | L [A "st"; a; b; L attrs] -> M.XStart (qname_of a b, List.map attr attrs)
+        | A "end" -> M.XEnd
+        | L [A "ch"; v] -> M.XChar (str_of_sx v)
+        | L [A "cm"; v] -> M.XCommentT (str_of_sx v)
+        | L [A "pi"; t; i] -> M.XProcInst (str_of_sx t, str_of_sx i)
+        | A "dir" -> M.XDirective
+        | _ -> failwith "xml token" in
+      (match M.read_xml (List.map tok toks) (final = "err") with
+       | Some t -> let b = Buffer.create 256 in dump_node b t; Buffer.contents b
+       | None -> "E")
+  | L [A "xmlspec"; L items] ->
+      let raw = function
+        | L [A "d"; p; u] -> M.RDecl (str_of_sx p, str_of_sx u)
+        | L [A "a"; a; b; v] -> M.RAttr (qname_of a b, str_of_sx v)
+        | _ -> failwith "raw attr" in
+      let rec item = function
+        | L [A "e"; a; b; L raws; L kids] -> M.XE (qname_of a b, List.map raw raws, List.map item kids)
+        | L [A "t"; L pieces] -> M.XT (List.map str_of_sx pieces)
+        | L [A "c"; v] -> M.XC (str_of_sx v)
+        | L [A "p"; t; d] -> M.XP (str_of_sx t, str_of_sx d)
+        | L [A "decl"; i] -> M.XDeclItem (str_of_sx i)
+        | A "dir" -> M.XDirItem
+        | _ -> failwith "xml item" in
+      let b = Buffer.create 256 in
+      dump_node b (M.build (M.dm_list M.Z0 (List.map item items))); Buffer.contents b
   | L [A "sv"; id; p] -> "S " ^ show_str (M.string_value (Hashtbl.find docs (int_of_sx id)) (path_of_sx p))
   | L [A "tostr"; A h] -> "S " ^ show_str (M.num_to_str (M.f_of_bits (z_of_hex h)))
   | L [A "tonum"; v] -> "N " ^ show_num (M.str_to_num (str_of_sx v))
